@@ -7,6 +7,16 @@ import glob
 for f in sorted(glob.glob(os.path.join(V, "tools", "claims.d", "*.json"))):
     claims.update(json.load(open(f)))
 props = [json.loads(l)["id"] for l in open(os.path.join(V, "properties.jsonl"))]
+import re as _re
+def extra_files_note(pid):
+    fs = sorted(glob.glob(os.path.join(V, "lean", "CuqiVerif", "Props", f"{pid}_*.lean")))
+    if not fs:
+        return ""
+    parts = []
+    for f in fs:
+        n = len(_re.findall(r"^\s*theorem\s+\S+", open(f).read(), _re.M))
+        parts.append(f"{os.path.basename(f)} ({n} theorems)")
+    return " Further audited theorem files (second pass, see the matching sections of docs/" + pid + ".md): " + ", ".join(parts) + "."
 ready = set(open(os.path.join(V, "tools", "ready.txt")).read().split())
 checks, na = [], []
 for pid in props:
@@ -19,7 +29,7 @@ for pid in props:
             "evidence_file": f"evidence/{pid}.json",
             "replay_cmd_template": f"./check {pid} --replay {{path}}",
             "engine": "lean4-proof+correspondence",
-            "level_claimed": {"category": "proof", "text": c["text"], "design_ref": c.get("design_ref", f"DESIGN.md §2 {pid}")},
+            "level_claimed": {"category": "proof", "text": c["text"] + extra_files_note(pid), "design_ref": c.get("design_ref", f"DESIGN.md §2 {pid}, §9, docs/{pid}.md")},
             "level_note": c["note"],
             "technique": c.get("technique", "Lean 4 theorems about a hand-written model + differential correspondence check against /repo"),
         })
